@@ -116,7 +116,9 @@ func newCatalog(ks []SKey, cs []SCert) *catalog {
 	keys.ResetRSA()
 	for _, k := range ks {
 		c.keys[k.Role] = k
-		keys.Pub(k.Kind, c.keyLabel(k.Role)) // fixes the RSA pool assignment in plan order
+		if k.Kind != keys.KindSK {
+			keys.Pub(k.Kind, c.keyLabel(k.Role)) // fixes the RSA pool assignment in plan order
+		}
 	}
 	for _, x := range cs {
 		c.certs[x.Role] = x
@@ -144,7 +146,19 @@ func (c *catalog) pub(role string) ssh.PublicKey {
 		return c.cert(x.Role)
 	}
 	k := c.keys[role]
+	if k.Kind == keys.KindSK {
+		return keys.SKPub(c.keyLabel(role))
+	}
 	return keys.Pub(k.Kind, c.keyLabel(role))
+}
+
+// noSign reports whether the harness holds no private key for the role (security-key identities): such
+// identities can only be listed by the underlying agent.
+func (c *catalog) noSign(role string) bool {
+	if x, ok := c.certs[role]; ok {
+		return c.keys[x.Key].Kind == keys.KindSK
+	}
+	return c.keys[role].Kind == keys.KindSK
 }
 
 func (c *catalog) cert(role string) *ssh.Certificate {
@@ -181,6 +195,7 @@ func (c *catalog) ident(role string, lifetime uint32, now int64) shimmodel.Ident
 	if lifetime != 0 {
 		id.Expiry = now + int64(lifetime)
 	}
+	id.NoSign = c.noSign(role)
 	return id
 }
 
